@@ -54,11 +54,13 @@ def run_part(v, tier):
             return i, "invalid"
         return i, (p["more"] if res == expect else "differs")
     nontrivial = 0
+    audited_ok = set()
     for i, bash_more in pmap(audit, range(len(pref))):
         p = pref[i]
         if bash_more is not None and bash_more != p["more"]:
             v.audit_miss({"part": "b", "text": texts[i], "model_more": p["more"], "bash": bash_more})
             continue
+        audited_ok.add(i)
         if p["more"]:
             nontrivial += 1
         if i in got and got[i] != p["more"]:
@@ -66,7 +68,29 @@ def run_part(v, tier):
                 continue
             v.violation("b:" + texts[i], {"kind": "the shell would %s" % ("wait for more input although the command is complete" if got[i] else "run an incomplete command"), "part": "b", "text": texts[i],
                                           "expected_more": p["more"], "observed_more": got[i], "open": p["open"], "lines": p["lines"]})
-    return {"states": r["distinct"], "prefixes": len(pref), "nontrivial": nontrivial, "maxlines": 3 if tier == "quick" else 4,
+    # the same decision as the readers take it: a complete program fed on standard input must run exactly like the same text in a file
+    # (a command started too early or too late shows up as different output), and like bash reading it on standard input
+    import random
+    rnd = random.Random(SEED)
+    complete = [i for i in range(len(pref)) if not pref[i]["more"] and i in audited_ok]
+    if tier == "quick" and len(complete) > 1500:
+        complete = rnd.sample(complete, 1500)
+
+    def deliver(i):
+        t = texts[i]
+        f = run_script("brush", t, front="file", timeout=30)
+        s_ = run_script("brush", t, front="stdin", timeout=30)
+        b = run_script("bash", t, front="stdin", timeout=30)
+        return i, f, s_, b
+    for i, f, s_, b in pmap(deliver, complete):
+        if crashed(s_) or s_["timeout"]:
+            v.violation("b-stdin-crash:" + texts[i], {"kind": "crash or hang reading the program on standard input", "part": "b", "text": texts[i], "stderr": s_["err"][-300:]})
+            continue
+        if (b["out"], b["rc"]) != (f["out"], f["rc"]):
+            continue            # brush (file) and bash differ on this text for reasons that are not about delivery: not judged here
+        if (s_["out"], s_["rc"]) != (f["out"], f["rc"]):
+            v.violation("b-stdin:" + texts[i], {"kind": "the program runs differently when read from standard input", "part": "b", "text": texts[i], "file": [f["out"], f["rc"]], "stdin": [s_["out"], s_["rc"]], "stderr": s_["err"][-300:]})
+    return {"states": r["distinct"], "prefixes": len(pref), "nontrivial": nontrivial, "maxlines": 3 if tier == "quick" else 4, "delivered": len(complete),
             "sample": {"text": texts[len(texts) // 2], "more": pref[len(pref) // 2]["more"]}}
 
 
